@@ -291,6 +291,9 @@ def check(prog, run):
     # ---- K8 numeric conversions of the specified scalars cannot abort a request (shared with C07.I4)
     from . import c07
     c07.check_numeric_conversions(prog, run, "K8")
+    # ---- K9 resolver errors are contained at every nesting depth of deferred results (shared with C08.R13)
+    from . import c09
+    c09.check_guarded_flatten(prog, run, "K9")
 
 
 def _defensive_default(raise_stmt):
